@@ -419,7 +419,22 @@ func groupsBatch(res *vutil.Result, prologue []bs, groups []*caseJ, scratch stri
 		return sp
 	}
 	nshared := 0
-	for _, g := range groups {
+	for gi, g := range groups {
+		if g.Fresh && g.Child && gi%3 == 1 {
+			// a long history: k reassignments of a third variable in front of the group's own env lines (the statement
+			// quantifies over all sequences of assignments; the latest one wins however many came before, for expansion
+			// and for executed programs alike).  k varies so that every position of a long sequence is some group's last.
+			k := 12 + (gi/3*7)%53
+			long := *g
+			long.Pre = nil
+			for j := 1; j <= k; j++ {
+				long.Pre = append(long.Pre, bs(fmt.Sprintf("env U=u%d", j)))
+			}
+			long.Pre = append(long.Pre, g.Pre...)
+			long.Vars = append(append([]varJ{}, g.Vars...), varJ{Name: bs("U"), Value: bs(fmt.Sprintf("u%d", k)), Set: true})
+			g = &long
+			res.Count("groups_with_long_history", 1)
+		}
 		if g.Fresh {
 			sc := &script{name: fmt.Sprintf("f-%06d", len(scripts))}
 			sp := addGroup(sc, g)
